@@ -7,7 +7,7 @@ import json, os, shutil, subprocess, sys, tempfile, glob
 
 VERIF = os.environ.get("VERIF_DIR", "/verif")
 REPO = os.environ.get("CEDAR_REPO", "/repo")
-BIN = os.path.join(VERIF, "bin", "cedarcheck")
+BIN = os.environ.get("CEDARCHECK_BIN", os.path.join(VERIF, "bin", "cedarcheck"))
 
 def main():
     args = sys.argv[1:]
